@@ -126,10 +126,49 @@ pub fn run(tier: Tier) -> i32 {
             }
         }
     }
+    // pure data movement over types that family D's skeleton does not have: single-variant enums
+    // (their tag has no bits), newtypes, marker enums, zero-sized components - no AND gate at all
+    let mut movement_texts = 0u64;
+    {
+        let progs: [(&str, &str); 9] = [
+            ("single-variant match swap", "enum P1 { Of(u8, u8) }\npub fn main(p: P1, q: u8) -> (u8, u8) {\n  match p {\n    P1::Of(a, b) => (b, a),\n  }\n}\n"),
+            ("single-variant let repack", "enum P1 { Of(u8, u8) }\npub fn main(p: P1, q: u8) -> P1 {\n  let P1::Of(a, b) = p;\n  P1::Of(b, q)\n}\n"),
+            ("newtype unwrap", "enum Id { Id(u16) }\npub fn main(x: Id, y: u8) -> (u16, u8) {\n  match x {\n    Id::Id(v) => (v, y),\n  }\n}\n"),
+            ("newtype wrap", "enum Id { Id(u16) }\npub fn main(x: u16, y: u8) -> (Id, u8) {\n  (Id::Id(x), y)\n}\n"),
+            ("marker enum passes through", "enum Marker { Here }\npub fn main(m: Marker, y: u8) -> (Marker, u8) {\n  match m {\n    Marker::Here => (Marker::Here, y),\n  }\n}\n"),
+            ("array of single-variant enums in a loop", "enum P1 { Of(u8, u8) }\npub fn main(ps: [P1; 2], y: u8) -> (u8, u8) {\n  let mut s = y;\n  let mut t = y;\n  for P1::Of(a, b) in ps {\n    s = a;\n    t = b;\n  }\n  (t, s)\n}\n"),
+            ("single-variant enum inside a struct", "enum P1 { Of(u8, bool) }\nstruct W { p: P1, k: u8 }\npub fn main(w: W, y: u8) -> (bool, u8, u8) {\n  match w.p {\n    P1::Of(a, b) => (b, a, w.k),\n  }\n}\n"),
+            ("unit fields move", "pub fn main(t: ((), u8, ()), y: u8) -> (u8, (), u8) {\n  (t.1, t.0, y)\n}\n"),
+            ("nested single-variant enums", "enum In { V(u8) }\nenum Out { W(In, u8) }\npub fn main(o: Out, y: u8) -> (u8, u8) {\n  match o {\n    Out::W(In::V(a), b) => (b, a),\n  }\n}\n"),
+        ];
+        for (name, src) in progs {
+            for cfg in crate::subject::CONFIGS {
+                if cfg.register {
+                    continue;
+                }
+                match crate::subject::compile(src, cfg, Default::default()) {
+                    crate::subject::CompileOutcome::Ok(p) => {
+                        if let Some(c) = crate::subject::ssa_of(&p) {
+                            movement_texts += 1;
+                            let ands = c.and_gates();
+                            if ands != 0 {
+                                coll.push(Violation::new("C15", format!("movement/{name}"), "data-movement-costs-and-gates", cfg.name(), json!({"kind": "program", "source": src, "config": cfg.name()}), format!("{ands} AND gates for pure data movement")));
+                            }
+                            for (kind, detail) in crate::progcheck::structural_scan(c, cfg.dedup).into_iter().take(3) {
+                                coll.push(Violation::new("C15", format!("movement/{name}"), kind, cfg.name(), json!({"kind": "program", "source": src, "config": cfg.name()}), detail));
+                            }
+                        }
+                    }
+                    other => coll.push(Violation::new("C05", format!("movement/{name}"), "program-not-compiled", cfg.name(), json!({"kind": "program", "source": src}), format!("{other:?}").chars().take(300).collect::<String>())),
+                }
+            }
+        }
+    }
     let mut cov = c01::coverage_json(&fr, "every circuit compiled in families D (data movement: sequences of <=n of 17 movement templates over array/tuple/struct/enum inputs), E, S, P in all configurations, and every circuit built from every reachable builder state of a bounded request-sequence search, is scanned structurally: backward reachability from the outputs (every gate but the two constant gates must be reached), no AND with equal or constant-wire operands, with dedup no two ANDs over the same operand pair; family D additionally requires and_gates()==0; a few programs with 10^5 - 10^6 gates (a product or quotient computed before and after many unrelated ones) are scanned too, so that size-dependent behaviour of the gate cache is seen; non-trivial = program with >=2 distinct observed outputs", &budget);
     if let serde_json::Value::Object(m) = &mut cov {
         m.insert("builder_states_scanned".into(), json!(bfs_states));
         m.insert("large_programs_scanned".into(), json!(large_programs));
+        m.insert("data_movement_texts_scanned(single-variant enums, newtypes, marker enums, unit fields; AND count must be 0)".into(), json!(movement_texts));
         m.insert("repeated_construct_programs_scanned(22 constructs x {side by side, bound twice, both branches, helper called twice, in a loop}, dedup on and off)".into(), json!(repeated_programs));
         m.insert("large_programs_gates_total".into(), json!(large_gates));
         m.insert("builder_circuits_scanned".into(), json!(bfs_builds));
